@@ -77,11 +77,24 @@ EventMatches(c, t, ev) ==
 (* the inner loops of selectTransitions / selectEventlessTransitions.       *)
 (* Conditions are evaluated in the order of the loops and may raise         *)
 (* error.execution, hence M is threaded through.                            *)
+(* Appendix D searches the ancestors once per atomic state, so the condition *)
+(* of an ancestor's transition may be looked at several times during ONE     *)
+(* selection.  Conditions have no side effects; how often a failing one is   *)
+(* evaluated -- and hence how many identical error.execution events it       *)
+(* raises -- is not prescribed (5.9.1 demands the error per evaluation).     *)
+(* The specification raises the error once per transition and selection:     *)
+(* M.condErr remembers the transitions whose condition already failed.       *)
+CondOnce(M, t, cond) ==
+    LET r == EvalB(cond, M.dm, M.cfg)
+    IN  IF r.ok THEN [E |-> M, v |-> r.v]
+        ELSE IF t \in M.condErr THEN [E |-> M, v |-> FALSE]
+        ELSE [E |-> [Raise(M, ErrExec) EXCEPT !.condErr = @ \cup {t}], v |-> FALSE]
+
 RECURSIVE FirstInState(_, _, _, _, _)
 FirstInState(c, M, ev, ts, k) ==
     IF k > Len(ts) THEN [M |-> M, t |-> 0]
     ELSE IF EventMatches(c, ts[k], ev)
-         THEN LET r == CondResult(M, c.trans[ts[k]].cond)
+         THEN LET r == CondOnce(M, ts[k], c.trans[ts[k]].cond)
               IN  IF r.v THEN [M |-> r.E, t |-> ts[k]]
                   ELSE FirstInState(c, r.E, ev, ts, k + 1)
          ELSE FirstInState(c, M, ev, ts, k + 1)
@@ -137,8 +150,9 @@ RemoveConflictingTransitions(c, M, enabled) == RCTOuter(c, M, enabled, 1, <<>>)
 (* selectEventlessTransitions (ev = NoEvent) / selectTransitions(event) *)
 SelectTransitions(c, M, ev) ==
     LET atomics == DocSeq({s \in M.cfg : IsAtomic(c, s)})
-        r == SelectFrom(c, M, ev, atomics, 1, <<>>)
-    IN  [M |-> r.M, T |-> RemoveConflictingTransitions(c, r.M, r.T)]
+        r == SelectFrom(c, [M EXCEPT !.condErr = {}], ev, atomics, 1, <<>>)
+        M1 == [r.M EXCEPT !.condErr = {}]
+    IN  [M |-> M1, T |-> RemoveConflictingTransitions(c, M1, r.T)]
 
 (* isInFinalState *)
 RECURSIVE IsInFinalState(_, _, _)
